@@ -78,7 +78,9 @@ def run(ctx: Ctx):
                 outcome = "CE-request" if (isreq, "truthy", None, True) in facts else \
                     "CE-answer" if (isreq, "truthy", None, False) in facts else "CE-any"
             else:
-                outcome = "all"
+                restr = sorted(str((f_[1], f_[2] if not isinstance(f_[2], frozenset) else sorted(f_[2]), f_[3]))
+                               for f_ in facts if f_[0] in (isreq, cmd))
+                outcome = "all" if not restr else "restricted:" + ";".join(restr)
             table[(sname, direction)] = outcome
     ctx.note(f"gate table: { {f'{s}/{d}': o for (s, d), o in table.items()} }")
     expect = {("PEER_CONNECTED", "receiver"): "CE-request", ("PEER_CONNECTED", "sender"): "CE-answer",
@@ -251,6 +253,10 @@ def run(ctx: Ctx):
     # ---------------- R6 routing only when ready ----------------------------------------------------
     ready_state_stores(ctx, "C06-R6")
     ready_constants(ctx, "C06-R6b")
+    from . import c10
+    ctx.include(c10.run, {"C10-R1", "C10-R2"}, "C06-R6c",
+                "requests are routed only to connections in a ready state (filter and selection "
+                "callback of route_request)", floor=4)
 
 
 def _receive_cer(ctx: Ctx, model, nc, P, K):
